@@ -1000,15 +1000,23 @@ func (c *Compiler) compileCall(node *ast.Call) error {
 	if argc > MaxArgs {
 		return fmt.Errorf("compile error: max args limit of %d exceeded (got %d)", MaxArgs, argc)
 	}
+	// As a stage of a pipe this call becomes a partial. That applies to this
+	// call only: calls nested in the function expression or the arguments
+	// are ordinary calls.
+	isPipeStage := c.current.pipeActive
+	c.current.pipeActive = false
 	if err := c.compile(node.Function()); err != nil {
+		c.current.pipeActive = isPipeStage
 		return err
 	}
 	for _, arg := range args {
 		if err := c.compile(arg); err != nil {
+			c.current.pipeActive = isPipeStage
 			return err
 		}
 	}
-	if c.current.pipeActive {
+	c.current.pipeActive = isPipeStage
+	if isPipeStage {
 		c.emit(op.Partial, uint16(argc))
 	} else {
 		c.emit(op.Call, uint16(argc))
@@ -1017,6 +1025,10 @@ func (c *Compiler) compileCall(node *ast.Call) error {
 }
 
 func (c *Compiler) compileObjectCall(node *ast.ObjectCall) error {
+	// see compileCall: only this call is a stage of the pipe
+	isPipeStage := c.current.pipeActive
+	c.current.pipeActive = false
+	defer func() { c.current.pipeActive = isPipeStage }()
 	if err := c.compile(node.Object()); err != nil {
 		return err
 	}
@@ -1037,7 +1049,7 @@ func (c *Compiler) compileObjectCall(node *ast.ObjectCall) error {
 			return err
 		}
 	}
-	if c.current.pipeActive {
+	if isPipeStage {
 		c.emit(op.Partial, uint16(len(args)))
 	} else {
 		c.emit(op.Call, uint16(len(args)))
